@@ -83,3 +83,19 @@ package sm9
 //@   loop 1 invariant priv.PrivateKey != nil && orderNat != nil && MODV(objof(orderNat)) == N && MSIZE(objof(orderNat)) == 32 && MBITS(objof(orderNat)) == 256
 //@   heapnonnil
 //@   modifies everything
+
+// ---- master private keys from bytes (C14): a scalar longer than the group order's 32 bytes is refused
+// before it could be reduced modulo the order (which would yield a DIFFERENT key than the one encoded);
+// an error comes with no key
+//@ func NewEncryptMasterPrivateKey property C14
+//@   ensures len(key) > 32 ==> err != nil
+//@   ensures err != nil ==> result0 == nil
+//@   ensures err == nil ==> result0 != nil
+//@   heapnonnil
+//@   modifies everything
+//@ func NewSignMasterPrivateKey property C14
+//@   ensures len(key) > 32 ==> err != nil
+//@   ensures err != nil ==> result0 == nil
+//@   ensures err == nil ==> result0 != nil
+//@   heapnonnil
+//@   modifies everything
